@@ -300,6 +300,36 @@ class sx_int(metaclass=_ShimMeta):
         return builtins.int(*a, **k)
 
 
+class sx_str(metaclass=_ShimMeta):
+    _real = builtins.str
+    _proxy = ()
+
+    @staticmethod
+    def _construct(*a, **k):
+        from .strs import SymStr, str_of
+
+        if len(a) == 1 and not k:
+            x = a[0]
+            if isinstance(x, SymStr):
+                return x
+            if isinstance(x, (SymInt, SymBool)) or type(x).__name__ == "SymRatio":
+                return str_of(x)
+            m = getattr(type(x), "__str__", None)
+            if m is not None and m is not object.__str__ and not isinstance(x, (builtins.str, builtins.int, builtins.float, builtins.bytes)):
+                r = m(x)
+                if isinstance(r, (builtins.str, SymStr)):
+                    return r
+        elif len(a) >= 2 and isinstance(a[0], SymBytes):
+            return a[0].decode(*a[1:], **k)
+        return builtins.str(*a, **k)
+
+
+def _init_str_proxy():
+    from .strs import SymStr
+
+    sx_str._proxy = SymStr
+
+
 def sx_len(x):
     m = getattr(x, "sx_len", None)
     if m is not None:
@@ -516,3 +546,6 @@ def rewrite_helpers():
         "sx_mkset": sx_mkset,
         "sx_percent": sx_percent,
     }
+
+
+_init_str_proxy()
